@@ -3,10 +3,15 @@
 # MOUNT NAMESPACE in which scratch copies of /repo and /verif (under /tmp/audit) are bind-mounted
 # over /repo and /verif, so nothing in the real trees is touched and paths stay valid.
 # usage: bin/mutation_audit.sh [seeded-dir ...]     (default: all of /verif/seeded/*)
-# result: /verif/seeded/AUDIT.jsonl (one line per mutant: which checks fired)
+#        AUDIT_SHARD=k AUDIT_SHARDS=n bin/mutation_audit.sh    (k = 0..n-1: every n-th change, own scratch
+#        directory /tmp/audit-k, so that several shards can run side by side)
+# result: /tmp/audit[-k]/AUDIT.jsonl (one line per mutant: which checks fired); merged and committed as
+#         /verif/seeded/AUDIT.jsonl by bin/audit_summary.py
 set -u
+SH=${AUDIT_SHARD:-}; NSH=${AUDIT_SHARDS:-1}
+A=/tmp/audit${SH:+-$SH}
+export AUDIT_DIR=$A
 if [ "${1:-}" != "--inside" ]; then
-  A=/tmp/audit
   rm -rf $A/repo $A/verif; mkdir -p $A
   git clone -q /repo $A/repo && cp /repo/Cargo.lock $A/repo/
   rsync -a --exclude target --exclude replay --exclude logs /verif/ $A/verif/
@@ -16,30 +21,38 @@ if [ "${1:-}" != "--inside" ]; then
   exec unshare -m bash "$0" --inside "$@"
 fi
 shift
-mount --bind /tmp/audit/repo /repo && mount --bind /tmp/audit/verif /verif || exit 2
+mount --bind $A/repo /repo && mount --bind $A/verif /verif || exit 2
 cd /verif
-OUT=/tmp/audit/AUDIT.jsonl; : > $OUT
+OUT=$A/AUDIT.jsonl; : > $OUT
 dirs=("$@"); [ ${#dirs[@]} -eq 0 ] && dirs=(/verif/seeded/*/)
 ALL="C01 C02 C03 C04 C05 C06 C07 C08 C09 C10 C11 C12 C13 C14 C15 C16 C18"
+idx=-1
 for d in "${dirs[@]}"; do
   d=${d%/}; [ -f $d/patch.diff ] || continue
+  idx=$((idx+1)); [ $((idx % NSH)) -eq ${SH:-0} ] || continue
   name=$(basename $d); owner=$(python3 -c "import json;print(json.load(open('$d/meta.json'))['property'])" 2>/dev/null || echo "?")
   git -C /repo checkout -q -- . ; git -C /repo apply $d/patch.diff 2>/dev/null || { echo "{\"mutant\": \"$name\", \"applies\": false}" >> $OUT; continue; }
   caught=""; rcs=""
   # owner through the registered command (wrappers incl. sanitizer lanes / python / wrapping build)
-  /verif/bin/check $owner quick > /tmp/audit/last-owner.out 2>&1; orc=$?
+  /verif/bin/check $owner quick > $A/last-owner.out 2>&1; orc=$?
   [ $orc -eq 1 ] && caught="$owner"
-  ( cd /verif/harness && cargo build --release --bins > /tmp/audit/build.log 2>&1 )
+  ( cd /verif/harness && cargo build --release --bins > $A/build.log 2>&1 )
   for c in $ALL; do
     [ "$c" = "$owner" ] && continue
     b=$(echo $c | tr 'A-Z' 'a-z')
-    timeout 900 /verif/target/release/$b quick > /tmp/audit/last.out 2>&1; rc=$?
+    timeout 900 /verif/target/release/$b quick > $A/last.out 2>&1; rc=$?
     rcs="$rcs \"$c\": $rc,"
     [ $rc -eq 1 ] && caught="$caught $c"
   done
-  sig=$(grep -m1 "violation sig" /tmp/audit/last-owner.out | cut -c1-260 | sed 's/"/'"'"'/g')
+  # changes in the Python layer are also shown to C17 whatever property their author named
+  if [ "$owner" != "C17" ] && grep -q "^+++ b/src/python" $d/patch.diff; then
+    /verif/bin/check C17 quick > $A/last.out 2>&1; rc=$?
+    rcs="$rcs \"C17\": $rc,"
+    [ $rc -eq 1 ] && caught="$caught C17"
+  fi
+  sig=$(grep -m1 "violation sig" $A/last-owner.out | cut -c1-260 | sed 's/"/'"'"'/g')
   echo "{\"mutant\": \"$name\", \"property\": \"$owner\", \"owner_check_rc\": $orc, \"caught_by\": \"$(echo $caught | xargs)\", \"other_rcs\": {${rcs%,}}, \"owner_first_violation\": \"$sig\"}" >> $OUT
   echo "$name owner=$owner rc=$orc caught_by: $caught"
   git -C /repo checkout -q -- .
 done
-cp $OUT /tmp/audit/AUDIT.done.jsonl
+cp $OUT $A/AUDIT.done.jsonl
